@@ -510,8 +510,10 @@ def shard(args):
             if kind == 'ok':
                 arc, ao, ae = core.sh(['as', '-o', '/dev/null', out_s], timeout=60)
                 if arc != 0:
-                    am = core.first_line(re.sub(r'^.*?: (Error|Fatal error): ', '', ae.decode('utf-8', 'replace'), flags=re.M))
-                    kind, det, msg = 'as-rejects', norm_msg(re.sub(r'^\S+:\d+: ', '', am)), am
+                    aet = ae.decode('utf-8', 'replace')
+                    m2 = re.search(r'(?:Error|Fatal error): (.*)', aet)
+                    am = m2.group(1) if m2 else core.first_line(aet)
+                    kind, det, msg = 'as-rejects', norm_msg(re.sub(r"`[^']*'", '`_\'', am)), am
             elif kind == 'diag':
                 m = re.search(r'\^ (.*)', e.decode('utf-8', 'replace'))
                 if m:
